@@ -145,6 +145,49 @@ def r17_iter_skip(text, log):
     return text[:m.start()] + rep + text[cl + 1:]
 
 
+def r18_iter_seq(text, log):
+    """R18: `for X in E {BODY}` where E iterates an ordered std set (`S.iter()`, `A.difference(&B)`) ->
+         `let vfw_sN = iter_seq(E); let mut vfw_kN: usize = 0; while vfw_kN < vfw_sN.len() { let X = &vfw_sN[vfw_kN]; vfw_kN += 1; BODY }`
+    std: a `for` loop is `while let Some(X) = it.next()`; the items are materialised by the prelude stub `iter_seq`
+    (contract: the elements of the set, each once).  The index is advanced before BODY so that `break` /
+    early exits inside the verbatim BODY need no change."""
+    n = 0
+    while True:
+        msk = mask(text)
+        m = None
+        for cand in re.finditer(r'(?<![A-Za-z0-9_])for\s+(\w+)\s+in\s+', msk):
+            # header ends at first '{' at depth 0
+            depth, k, brace = 0, cand.end(), -1
+            while k < len(msk):
+                ch = msk[k]
+                if ch in '([':
+                    depth += 1
+                elif ch in ')]':
+                    depth -= 1
+                elif ch == '{' and depth == 0:
+                    brace = k
+                    break
+                k += 1
+            if brace < 0:
+                continue
+            e = text[cand.end():brace].strip()
+            if re.search(r'\.iter\(\)$', e) or '.difference(' in e:
+                m = (cand, brace, e)
+                break
+        if not m:
+            break
+        cand, brace, e = m
+        n += 1
+        x = cand.group(1)
+        cl = match_brace(msk, brace)
+        body = text[brace + 1:cl]
+        rep = ('let vfw_s%d = iter_seq(%s);\n    let mut vfw_k%d: usize = 0;\n    while vfw_k%d < vfw_s%d.len() {\n        let %s = &vfw_s%d[vfw_k%d];\n        vfw_k%d += 1;%s}'
+               % (n, e, n, n, n, x, n, n, n, body))
+        log.append(('R18', 'for %s in %s -> index loop over iter_seq(..)' % (x, ' '.join(e.split())[:60])))
+        text = text[:cand.start()] + rep + text[cl + 1:]
+    return text
+
+
 def r6_std_consts(text, log):
     """R6: std::u32::MAX -> u32::MAX etc."""
     pat = r'std::(u8|u16|u32|u64|i8|i16|i32|i64|usize)::(MAX|MIN)'
@@ -215,4 +258,5 @@ RULES = {
     'R10': r10_fold,
     'R13': r13_byteorder,
     'R17': r17_iter_skip,
+    'R18': r18_iter_seq,
 }
